@@ -137,15 +137,15 @@ impl PieceType for Pawn {
             let rank = board.turn.enpassant_pawn_rank();
             let files = chess_lookup::ADJACENT_FILES[ep_file];
             let dest_rank = board.turn.enpassant_capture_rank();
-            let dest = BitBoard::from(Pos::new(ep_file, dest_rank));
+            let dest_pos = Pos::new(ep_file, dest_rank);
+            let dest = BitBoard::from(dest_pos);
             let capture_pawn = Pos::new(ep_file, rank);
 
-            // if the opponent's pawn is checking the king (and the only piece checking the king)
-            // or if the there is no check and the opponent's pawn doesn't block a check against our king
-            // then we can capture it via en-passant with any unpinned pawn on the same rank and adjacent file as the
-            // opponent's pawn
-            if check_mask.contains(capture_pawn) && !board.pinned.contains(capture_pawn) {
-                for src in BitBoard::from(rank) & files & pieces & !board.pinned {
+            // en passant removes two pawns from one rank and puts one on another file, so the
+            // pin / check masks of ordinary moves do not describe it: decide each capture by
+            // looking at the position after it
+            for src in BitBoard::from(rank) & files & pieces {
+                if board.is_legal_en_passant(src, dest_pos, capture_pawn, king_sq) {
                     unsafe {
                         movelist.push_unchecked(LegalMovesAt {
                             src,
@@ -156,6 +156,31 @@ impl PieceType for Pawn {
                 }
             }
         }
+    }
+}
+
+impl Board {
+    /// Is our king safe once the pawn on `src` has captured the pawn on `captured` en passant,
+    /// landing on `dest`?
+    fn is_legal_en_passant(&self, src: Pos, dest: Pos, captured: Pos, king_sq: Pos) -> bool {
+        let captured_bb = BitBoard::from(captured);
+        let opp_bb = self.raw[!self.turn] - captured_bb;
+
+        // a knight, or a pawn other than the captured one, keeps giving check
+        let steppers = (self.raw[Piece::Knight] | self.raw[Piece::Pawn]) & opp_bb;
+        if (self.checkers & steppers).any() {
+            return false;
+        }
+
+        let pieces = (self.raw.all() - BitBoard::from(src) - captured_bb) | BitBoard::from(dest);
+
+        let queen_bb = self.raw[Piece::Queen];
+        let bishops = (self.raw[Piece::Bishop] | queen_bb) & opp_bb;
+        let rooks = (self.raw[Piece::Rook] | queen_bb) & opp_bb;
+
+        ((chess_lookup::bishop_moves(king_sq, pieces) & bishops)
+            | (chess_lookup::rook_moves(king_sq, pieces) & rooks))
+            .none()
     }
 }
 
